@@ -13,7 +13,7 @@ class C19(Prop):
                   'or nesting; distinct = distinct case hash')
 
     def streams(self, rng, tier):
-        n = 800 if tier == 'quick' else scale(120000)
+        n = 2000 if tier == 'quick' else scale(120000)
         corpus = [
             {'op': 'comment.str', 'content': {'l': [{'s': 'a  '}, {'s': ''}, {'s': '  b'}, {'s': ' '}]}},
             {'op': 'comment.str', 'content': {'s': 'Copyright\n\n  (c) me\r\n#include <evil>\x0bint main(){}\x85*/ x \\'}},
@@ -35,7 +35,7 @@ class C19(Prop):
         from harness import gen_build as GB
         from harness.common import case_hash
         rng, tier = ctx['rng'], ctx['tier']
-        n = 40 if tier == 'quick' else scale(4000)
+        n = 100 if tier == 'quick' else scale(4000)
         hostile = ['', 'Copyright (c) X', 'a\n\n  b  \n', '*/ int evil();', '#include <evil>\x0bint main(){}\x85x',
                    'line1\rline2\r\nline3', '  \t ', 'trailing backslash \\', '\u2028x\u2029y', '// already',
                    '// first line only\nint evil();', '  // x\n#define final\n', '//\n};struct Oops{', '/* a */\nint y;', '//a\r\nint z;']
